@@ -9,6 +9,9 @@ Model: `Client.call cfg ignoreExc sockOpen c sc` (Pymc/Model/Client.lean over Ex
 data of any content and chunking, end-of-stream, `EINTR`, socket errors).  Every server failure (error lines, garbage,
 truncated or malformed replies, a close in the middle of a value) and every network failure is such a script.
 `Client.isRead` / `Client.missRes` (Pymc/Model/Miss.lean): the read operations and what each returns for a miss.
+`isRead` is "goes through `_fetch_cmd`", the one place where `ignore_exc` is looked at: the six cache reads, and also the
+administrative `stats` (miss value `{}`) and `cache_memlimit` (miss value `True` — the value it also returns on success,
+so with `ignore_exc` a failed `cache_memlimit` is indistinguishable from a successful one).  `shutdown` is outside.
 `Framing.sends cfg c` says that the arguments of `c` pass validation and the call goes to the wire (it is `false` for an
 illegal key / non-integer `expire`, and for `get_many([])`, which returns `{}` without I/O).
 
@@ -45,7 +48,7 @@ theorem C07_ignore_exc_never_raises (cfg : Cfg) (sockOpen : Bool) (c : Call) (sc
 raises an exception `e` that is not a `BaseException` — connect failure, send failure, any receive failure,
 end-of-stream, `ERROR` / `CLIENT_ERROR` / `SERVER_ERROR`, an unparseable or unexpected reply —, then the call *with*
 `ignore_exc` returns exactly what it returns for a miss: `default` (`get`, `gat`), `(default, cas_default)`
-(`gets`, `gats`), `{}` (`get_many`, `gets_many`).  The broken connection is closed (`sockOpen = false`), so the next call
+(`gets`, `gats`), `{}` (`get_many`, `gets_many`, `stats`), `True` (`cache_memlimit`).  The broken connection is closed (`sockOpen = false`), so the next call
 connects anew; what was sent and what is left unread are as without the flag. -/
 theorem C07_ignore_exc_is_miss (cfg : Cfg) (sockOpen : Bool) (c : Call) (sc : Script) (e : Exc)
     (hr : isRead c = true) (hlegal : sends cfg c = true)
@@ -168,6 +171,36 @@ example :
     simp [mapOut, exchangeFetch]
   exact ⟨he, (C07_ignore_exc_is_miss_of_not_illegal {} false (.gets (.bytes [107])) _ _ rfl he (by simp)
     (by decide)).1⟩
+
+/-- `stats` is one of the operations `ignore_exc` is about (it goes through `_fetch_cmd`): the server answers `ERROR`;
+without the flag `stats()` raises `MemcacheUnknownCommandError`, with the flag it returns `{}` (`missRes`), socket closed -/
+example :
+    (Client.call {} false true (.stats []) { evs := [.data [69, 82, 82, 79, 82, 13, 10]] }).res
+      = .error .unknownCommand ∧
+    (Client.call {} true true (.stats []) { evs := [.data [69, 82, 82, 79, 82, 13, 10]] }).res = .ok (.stats []) ∧
+    (Client.call {} true true (.stats []) { evs := [.data [69, 82, 82, 79, 82, 13, 10]] }).sockOpen = false := by
+  have he : (Client.call {} false true (.stats []) { evs := [.data [69, 82, 82, 79, 82, 13, 10]] }).res
+      = .error .unknownCommand := by with_unfolding_all rfl
+  have := C07_ignore_exc_is_miss {} true (.stats []) _ _ rfl (by with_unfolding_all decide) he rfl
+  exact ⟨he, this.1, this.2.1⟩
+
+/-- so is `cache_memlimit`, whose "miss value" is `True`: the connection is refused; without the flag the call raises,
+with the flag it returns `True` — exactly what it returns when the server accepted the new limit -/
+example :
+    (Client.call {} false false (.cacheMemlimit (.int 64)) { connectFails := some (.sock 61) }).res
+      = .error (.sock 61) ∧
+    (Client.call {} true false (.cacheMemlimit (.int 64)) { connectFails := some (.sock 61) }).res
+      = .ok (.bool true) ∧
+    (Client.call {} true true (.cacheMemlimit (.int 64)) { evs := [.data [79, 75, 13, 10]] }).res
+      = .ok (.bool true) := by
+  have he : (Client.call {} false false (.cacheMemlimit (.int 64)) { connectFails := some (.sock 61) }).res
+      = .error (.sock 61) := by with_unfolding_all rfl
+  exact ⟨he, (C07_ignore_exc_is_miss_of_not_illegal {} false (.cacheMemlimit (.int 64)) _ _ rfl he (by simp)
+    (by decide)).1, by with_unfolding_all rfl⟩
+
+/-- `shutdown` is not: it goes through `_misc_cmd`, which never looks at the flag (`C07_ignore_exc_only_swallows`) -/
+example (sc : Script) (so : Bool) :
+    Client.call {} true so (.shutdown false) sc = Client.call {} false so (.shutdown false) sc := rfl
 
 /-- the third alternative of `C07_ignore_exc_never_raises` occurs: a `KeyboardInterrupt` inside `recv()` propagates -/
 example : (Client.call {} true true (.get (.bytes [107])) { evs := [.err 100] }).res = .error (.sock 100) := by
